@@ -81,6 +81,7 @@ var Schema = []string{
 type Level struct {
 	ExprDepth  int // 2: F(G(atom)); 3 adds chains over the reduced form set
 	Options    int // K: clause options switched away from the default
+	DDLOptions int // K for the DDL skeletons (0 = Options)
 	PosTables  []string
 	PosNesting bool // positions inside a nested subquery as well
 }
@@ -99,7 +100,7 @@ func Enumerate(lv Level) []Stmt {
 	out = append(out, lexFamily()...)
 	out = append(out, txnFamily()...)
 	out = append(out, posFamily(lv)...)
-	out = append(out, structFamilies(lv.Options)...)
+	out = append(out, structFamilies(lv.Options, lv.DDLOptions)...)
 	out = append(out, exprFamily(lv.ExprDepth)...)
 
 	seen := map[string]int{}
@@ -191,3 +192,9 @@ TO TRANSACTION TRIGGER UNBOUNDED UNION UNIQUE UPDATE USING VACUUM VALUES VIEW VI
 		Keywords[w] = true
 	}
 }
+
+// NumForms is the number of expression forms; NumSubforms the number of
+// subquery-bearing forms; NumPositions the number of expression positions.
+func NumForms() int     { return len(forms) }
+func NumSubforms() int  { return len(subforms) }
+func NumPositions() int { return len(positions) }
